@@ -43,6 +43,8 @@ pub fn run_state(case: &Value) -> Value {
             json!({"r": "ok", "left": state_json(l), "right": state_json(r)})
         }
         "inner" => cj(a.unwrap().inner_product(&b.unwrap())),
+        // <a|a> with the SAME object on both sides (no copy)
+        "inner_self" => { let a = a.unwrap(); cj(a.inner_product(&a)) }
         "normalise" => state_json(a.unwrap().normalise()),
         "fidelity" => fj(a.unwrap().fs_fidelity(&b.unwrap())),
         "fs_dist" => fj(a.unwrap().fs_dist(&b.unwrap())),
